@@ -3,7 +3,8 @@
 
    Model: Model/Cache.v (backing store = write-once association list that only
    grows; L1 / optional L2 = partial maps; an eviction oracle that may drop any
-   entry of any tier between any two steps; TieredCache::get_or_fetch and the
+   entry of any tier between any two steps and may let any single lookup come
+   back empty (EStepMiss); TieredCache::get_or_fetch and the
    CachedObjectStore entry points as step sequences; any number of readers
    interleaved with each other, with evictions and with new-object writes). *)
 From CS Require Import Base.Prelude Model.Cache Proofs.CacheProofs.
@@ -25,8 +26,8 @@ Print Assumptions C16_cached_subset_store.
 (* Transparency, all interleavings: a reader arriving after any schedule `pre`
    with any request q (whole / get_opts with any options / ranged / head),
    followed by ANY continuation `post` (steps of this and of other readers in
-   any order, evictions of anything at any time, further readers, new-object
-   writes): if it has completed, its result is exactly what the backing store
+   any order, lookups that come back empty, evictions of anything at any time,
+   further readers, new-object writes): if it has completed, its result is exactly what the backing store
    itself answers to q (`store_read`; error kinds re-wrapped by `view` on the
    cached path) on a store snapshot `mid` lying between its arrival and now. *)
 Theorem C16_transparent :
@@ -105,7 +106,7 @@ Print Assumptions C16_reads_complete.
 (* Sequential histories (core): every read of every history of new-object
    writes and whole / ranged / conditional / head reads completes and returns
    exactly the backing store's answer at that point, for every choice of
-   evictions before every step; the store ends up as the writes alone make it. *)
+   evictions before every step and of lookups that come back empty; the store ends up as the writes alone make it. *)
 Theorem C16_transparent_sequential :
   forall (h : list sop) (st0 : store) (l2_on : bool),
   snd (seq_run h (init st0 l2_on) []) = spec_results h st0 /\
